@@ -4,6 +4,7 @@ from . import helpers_rules as H
 from . import alias_rules as A
 
 META = {
+    'claim_added': "Also decided: the cycle pre-check removes the node from the ancestor set on exit, exits early only for scalars/done nodes and visits keys; set_value installs a fresh node on every path; yatiml does not override PyYAML's composer; processing keeps no per-node cache.",
     'level': 'other',
     'technique': 'static: dominance and completeness (structural recursion over items, keys and values) of the acyclicity '
                  'pre-check; write-effect closure of recognition; agreement of the tag table written by processing with the accept '
